@@ -2,6 +2,7 @@
 //! statement and proof; and the property's own oracle on the implementation (alter any transcript
 //! component ⇒ every later challenge changes).
 use plonky2::field::types::Field;
+use plonky2::fri::reduction_strategies::FriReductionStrategy;
 use plonky2::plonk::proof::ProofWithPublicInputs;
 
 use crate::dump::*;
@@ -44,7 +45,12 @@ pub fn emit(e: &mut Emitter, seed: u64, thorough: bool) {
         let features = r.below(16);
         let nops = r.range(8, 60) as usize;
         let prog = gen_prog(&mut r, nops, features);
-        let config = gen_config(&mut r, true);
+        let mut config = gen_config(&mut r, true);
+        if config.zero_knowledge && matches!(config.fri_config.reduction_strategy, FriReductionStrategy::Fixed(_)) {
+            // blinding never fits a Fixed schedule (F-C01-2): outside the admissible configurations
+            config.zero_knowledge = false;
+        }
+        e.stage(&format!("building+proving a generated circuit ({} ops, config {:?})", prog.ops.len(), config));
         let built = std::panic::catch_unwind(std::panic::AssertUnwindSafe(|| {
             let (data, pw) = prog.build(config.clone());
             let proof = data.prove(pw);
